@@ -164,6 +164,29 @@ class TaggedInts(Tagged[str], list[int]):
     pass
 
 
+# a TypeVar bounded by a runtime-checkable protocol that has a data member (issubclass() refuses such protocols)
+@runtime_checkable
+class HasName(Protocol):
+    name: str
+
+
+class Person:
+    name = 'p'
+    def __repr__(self): return 'Person()'
+
+
+TN = TypeVar('TN', bound=HasName)
+
+
+class Badge(Generic[TN]):
+    def __init__(self, v=None): self.v = v
+    def __repr__(self): return f'Badge({self.v!r})'
+
+
+class BadgeList(list[TN]):
+    pass
+
+
 class GenSeq(Sequence[T]):
     """Pure-Python generic sequence."""
     def __init__(self, items=()): self._items = list(items)
